@@ -26,8 +26,8 @@
      frag k i             i lies in the stage-k fragment (Lemmas/SoundFrag.v).
    Closure creation (IAnonFn, IFnDecl) runs the constant-propagation pass [recreate_body]
    over the body; the two rules are relative to a closure POLICY (which literals are
-   accepted) and their soundness to [policy_ok powf pre] ("the pass preserves typing on the
-   accepted literals", and "the prelude is typed where iterator operators are allowed").
+   accepted) and their soundness to [policy_ok powf] ("the pass preserves typing on the
+   accepted literals").
    [no_fn]       : the judgement without the closure-creation and iterator rules
                    (stages 1 - 4a);
    [all_policy]  : every literal is accepted; [recreate_ok_all] PROVES policy_ok for it
@@ -36,19 +36,19 @@
                    ([exec_sound_closures], [run_code_sound_closures]);
    [P : Policy]  : the general form, under the named hypothesis (Section
                    WithClosureCreation);
-   [policy6 pre] : stage 6, the iterator operators `$]`, `$init f`, `? T`, `$+`, `$*`, `\`
-                   (rules T_Collect, T_Reduce, T_TypeFilter, T_Sum, T_Product, T_Partition;
-                   `$&&`, `$||`, `$&`,
-                   `$|` are planted calls of the reducer closures: rule T_Call).  The policy
-                   allows them where the store typing records the honest signatures of the
-                   five prelude closures `$+` / `$*` call ([prelude_ok pre W0]), and allows the
-                   closure literals whose body is typed without iterator operators;
+   [policy6]     : stage 6, the iterator operators `$]`, `$init f`, `? T`, `\` (rules T_Collect,
+                   T_Reduce, T_TypeFilter, T_Partition).  `$+ $* $&& $|| $& $|` are planted by the
+                   checker as calls of the reducer closures (for `$+ $*`: chosen by the STATIC
+                   type of the operand, a `match` over iterator types when it allows several):
+                   rules T_Call / T_Match, under every policy.  [policy6] allows the four
+                   gated rules and the closure literals whose body is typed without them;
                    [policy6_ok] PROVES policy_ok for it, [boot_store_ok] /
-                   [boot_prelude_ok] that the store the driver boots from the helper sources
-                   satisfies the premises (Section Iterators; [run_boot_sound]).
-                   The iterator rules are gated by the REJECTION of a reserved key of the
+                   [boot_reducers_ok] that the store the driver boots from the helper sources
+                   is typed and the planted reducers are good values of it (Section Iterators;
+                   [run_boot_sound]).
+                   The four rules are gated by the REJECTION of a reserved key of the
                    policy, so they are absent under [all_policy] and [no_fn]: the pass does
-                   NOT preserve typing on bodies with iterator operators
+                   NOT preserve the rules that read the element type off the static type
                    ([recreate_iterator_refuted]).
    SPanic = the implementation would panic; SFuel = the model ran out of fuel. *)
 From SSL.Model Require Import Base Ty Float Value Ops Seq Syntax Rt Recreate Exec Check Top.
@@ -125,12 +125,10 @@ Variable powf : fbits -> fbits -> fbits.
 Variable pre : prelude.
 Notation E := (exec powf pre).
 
-Lemma no_fn_rec : @policy_ok no_fn powf pre.
+Lemma no_fn_rec : @policy_ok no_fn powf.
 Proof.
-  split.
-  - intros W0 G nm ps body r G' Ts [_ ->] Wf. exfalso.
-    cbn [wf_ty] in Wf. apply andb_true_iff in Wf. destruct Wf as [_ Wf]. discriminate Wf.
-  - intros W0 G i Hg. exfalso. apply Hg. split; reflexivity.
+  intros W0 G nm ps body r G' Ts [_ ->] Wf. exfalso.
+  cbn [wf_ty] in Wf. apply andb_true_iff in Wf. destruct Wf as [_ Wf]. discriminate Wf.
 Qed.
 
 (* ================================================================= *)
@@ -284,7 +282,7 @@ End Unconditional.
 Section WithClosureCreation.
 Variable P : Policy.
 Existing Instance P.
-Hypothesis recreate_preserves_typing : policy_ok powf pre.
+Hypothesis recreate_preserves_typing : policy_ok powf.
 Notation with_fn_rec := recreate_preserves_typing.
 
 Theorem exec_sound_fn : forall n W0 G K i T W st sc st' sc' s,
@@ -317,7 +315,7 @@ Proof. exact (Soundness.run_code_sound powf pre with_fn_rec). Qed.
 End WithClosureCreation.
 
 (* ---- ... and the hypothesis is a theorem for the policy that accepts every literal ---- *)
-Theorem recreate_preserves_typing_all : @policy_ok all_policy powf pre.
+Theorem recreate_preserves_typing_all : @policy_ok all_policy powf.
 Proof. exact (SoundRec3.recreate_ok_all powf). Qed.
 
 Section Closures.
@@ -397,43 +395,42 @@ End Closures.
 (* ================================================================= *)
 Section Iterators.
 
-(* the hypothesis of the general form is a theorem for [policy6 pre] *)
-Theorem policy6_sound : @policy_ok (policy6 pre) powf pre.
-Proof. exact (Sound7.policy6_ok powf pre). Qed.
+(* the hypothesis of the general form is a theorem for [policy6] *)
+Theorem policy6_sound : @policy_ok policy6 powf.
+Proof. exact (Sound7.policy6_ok powf). Qed.
 
-(* the iterator rules are available exactly where the prelude is typed *)
-Theorem iter_gate_6 : forall W0 G i, @iter_gate (policy6 pre) W0 G i <-> prelude_ok pre W0.
-Proof.
-  intros W0 G i. split; [apply (proj2 policy6_sound)|apply Sound7.gate6_intro].
-Qed.
+(* the gated iterator rules are available *)
+Theorem iter_gate_6 : forall W0 G i, @iter_gate policy6 W0 G i.
+Proof. exact Sound7.gate6. Qed.
 
-(* everything typed with closure literals and without iterator operators stays typed *)
+(* everything typed with closure literals and without the gated rules stays typed; this
+   includes the planted forms of `$+ $* $&& $|| $& $|` *)
 Theorem typed_closures_in_6 : forall W0 G K i T,
-  @typed all_policy W0 G K i T -> @typed (policy6 pre) W0 G K i T.
-Proof. intros W0. exact (proj1 (Sound7.typed_all_in_6 pre W0)). Qed.
+  @typed all_policy W0 G K i T -> @typed policy6 W0 G K i T.
+Proof. intros W0. exact (proj1 (Sound7.typed_all_in_6 W0)). Qed.
 Theorem typed_list_closures_in_6 : forall W0 G K l G' Ts,
-  @typed_list all_policy W0 G K l G' Ts -> @typed_list (policy6 pre) W0 G K l G' Ts.
-Proof. intros W0. exact (proj1 (proj2 (proj2 (proj2 (proj2 (proj2 (Sound7.typed_all_in_6 pre W0))))))). Qed.
+  @typed_list all_policy W0 G K l G' Ts -> @typed_list policy6 W0 G K l G' Ts.
+Proof. intros W0. exact (proj1 (proj2 (proj2 (proj2 (proj2 (proj2 (Sound7.typed_all_in_6 W0))))))). Qed.
 
 Theorem exec_sound_6 : forall n W0 G K i T W st sc st' sc' s,
-  @typed (policy6 pre) W0 G K i T -> ext W0 W -> @store_ok (policy6 pre) W st -> env_ok W sc G ->
+  @typed policy6 W0 G K i T -> ext W0 W -> @store_ok policy6 W st -> env_ok W sc G ->
   E n st sc i = (st', sc', s) ->
   sc' = sc /\
-  exists W', ext W W' /\ @store_ok (policy6 pre) W' st' /\ env_ok W' sc' G /\ signal_ok W' K T s.
-Proof. exact (exec_sound_fn (policy6 pre) policy6_sound). Qed.
+  exists W', ext W W' /\ @store_ok policy6 W' st' /\ env_ok W' sc' G /\ signal_ok W' K T s.
+Proof. exact (exec_sound_fn policy6 policy6_sound). Qed.
 
 Theorem exec_sound_line_6 : forall n W0 G K i T G' W st sc st' sc' s,
-  @typed_line (policy6 pre) W0 G K i T G' -> ext W0 W -> @store_ok (policy6 pre) W st ->
+  @typed_line policy6 W0 G K i T G' -> ext W0 W -> @store_ok policy6 W st ->
   env_ok W sc G ->
   E n st sc i = (st', sc', s) ->
-  exists W', ext W W' /\ @store_ok (policy6 pre) W' st' /\ signal_ok W' K T s /\
+  exists W', ext W W' /\ @store_ok policy6 W' st' /\ signal_ok W' K T s /\
     (forall v, s = SVal v -> env_ok W' sc' G').
-Proof. exact (exec_sound_line_fn (policy6 pre) policy6_sound). Qed.
+Proof. exact (exec_sound_line_fn policy6 policy6_sound). Qed.
 
 Theorem run_code_sound_6 : forall n W0 G l G' Ts,
-  @typed_list (policy6 pre) W0 G (mkK false None) l G' Ts ->
-  forall W st sc last Tl, ext W0 W -> @store_ok (policy6 pre) W st -> env_ok W sc G -> gv W last Tl ->
-  exists W', ext W W' /\ @store_ok (policy6 pre) W' (sto (run_code powf pre n st sc l last)) /\
+  @typed_list policy6 W0 G (mkK false None) l G' Ts ->
+  forall W st sc last Tl, ext W0 W -> @store_ok policy6 W st -> env_ok W sc G -> gv W last Tl ->
+  exists W', ext W W' /\ @store_ok policy6 W' (sto (run_code powf pre n st sc l last)) /\
     match sig (run_code powf pre n st sc l last) with
     | SVal v => gv W' v (List.last Ts Tl) /\
                 env_ok W' (scs (run_code powf pre n st sc l last)) G'
@@ -441,7 +438,7 @@ Theorem run_code_sound_6 : forall n W0 G l G' Ts,
     | SFuel => True
     | _ => False
     end.
-Proof. exact (run_code_sound_fn (policy6 pre) policy6_sound). Qed.
+Proof. exact (run_code_sound_fn policy6 policy6_sound). Qed.
 
 End Iterators.
 
@@ -468,7 +465,7 @@ End C01b.
    union targets too. *)
 Definition powf0 : fbits -> fbits -> fbits := fun _ _ => CANON_NAN.
 Definition pre0 : prelude := mkPrelude 0 0 0 0 0 0 0 0.
-Definition red0 : reducers := mkReducers VVoid VVoid VVoid VVoid.
+Definition red0 : reducers := mkReducers VVoid VVoid VVoid VVoid [] [].
 Definition st0 : store := mkStore [] [] [].
 Definition na : name := [97]. Definition nb : name := [98]. Definition nc : name := [99].
 Definition F_2_5 : fbits := 4612811918334230528.     (* 2.5 *)
@@ -872,15 +869,18 @@ Proof. vm_compute. reflexivity. Qed.
    [W_boot] records the signature each closure was declared with. *)
 Theorem boot_is_the_boot : the_boot = Some (mkBooted st_boot pre_boot red_boot).
 Proof. exact SoundBoot.boot_eq. Qed.
-Theorem boot_store_ok : @store_ok (policy6 pre_boot) W_boot st_boot.
+Theorem boot_store_ok : @store_ok policy6 W_boot st_boot.
 Proof. exact SoundBoot.boot_store_ok. Qed.
-Theorem boot_prelude_ok : prelude_ok pre_boot W_boot.
-Proof. exact SoundBoot.boot_prelude_ok. Qed.
+Theorem boot_reducers_ok :
+  Forall (fun kf => vgood W_boot (snd kf)) (r_sums red_boot ++ r_products red_boot) /\
+  vgood W_boot (r_all red_boot) /\ vgood W_boot (r_any red_boot) /\
+  vgood W_boot (r_and red_boot) /\ vgood W_boot (r_or red_boot).
+Proof. exact SoundBoot.boot_reducers_ok. Qed.
 
 (* a program typed against the booted store: no panic, only documented errors, the value
    of the last statement in its static type — no hypothesis left *)
 Theorem run_boot_sound : forall powf n l G' Ts,
-  @typed_list (policy6 pre_boot) W_boot [] (mkK false None) l G' Ts ->
+  @typed_list policy6 W_boot [] (mkK false None) l G' Ts ->
   match sig (run_code powf pre_boot n st_boot [[]] l VVoid) with
   | SVal v => has_type v (List.last Ts TVoid) = true
   | SError e => doc_err e
@@ -913,12 +913,17 @@ Definition counter : list instr :=
     IFnDecl nit [] counter_body (TTup [TBool; TInt]) ].
 Definition it_int : instr := ILocal nit (LFunction [] (TTup [TBool; TInt])).
 Definition X6 := run_code powf0 pre_boot 60 st_boot [[]].
+(* what the checker plants for `yi $+` / `yi $*` when yi has the static type yt *)
+Definition sum_of (yi : instr) (yt : ty) : instr :=
+  match plant_reducer (r_sums red_boot) yi yt with Ok i => i | _ => IVar VVoid end.
+Definition prod_of (yi : instr) (yt : ty) : instr :=
+  match plant_reducer (r_products red_boot) yi yt with Ok i => i | _ => IVar VVoid end.
 
-(* it $+ *)
-Definition ex_sum : list instr := counter ++ [IUn USum it_int].
+(* it $+   — planted: INT_SUM(it) *)
+Definition ex_sum : list instr := Eval vm_compute in counter ++ [sum_of it_int (it_of TInt)].
 Example ex_sum_typed : exists G' Ts,
-  @typed_list (policy6 pre_boot) W_boot [] K0 ex_sum G' Ts /\ List.last Ts TVoid = TInt.
-Proof. eexists. eexists. split; [unfold ex_sum, counter, counter_body; cbn [app]; tylist|reflexivity]. Qed.
+  @typed_list policy6 W_boot [] K0 ex_sum G' Ts /\ List.last Ts TVoid = TInt.
+Proof. eexists. eexists. split; [unfold ex_sum; tylist|reflexivity]. Qed.
 Example ex_sum_runs : sig (X6 ex_sum VVoid) = SVal (VInt 6).
 Proof. vm_compute. reflexivity. Qed.
 Example ex_sum_sound : forall powf n, sig (run_code powf pre_boot n st_boot [[]] ex_sum VVoid) <> SPanic.
@@ -930,7 +935,7 @@ Qed.
 (* it $]   — [1, 2, 3] *)
 Definition ex_collect : list instr := counter ++ [IUn UCollect it_int].
 Example ex_collect_typed : exists G' Ts,
-  @typed_list (policy6 pre_boot) W_boot [] K0 ex_collect G' Ts /\ List.last Ts TVoid = TArr TInt.
+  @typed_list policy6 W_boot [] K0 ex_collect G' Ts /\ List.last Ts TVoid = TArr TInt.
 Proof. eexists. eexists. split; [unfold ex_collect, counter, counter_body; cbn [app]; tylist|reflexivity]. Qed.
 Example ex_collect_runs : sig (X6 ex_collect VVoid) = SVal (VArr TInt [VInt 1; VInt 2; VInt 3]).
 Proof. vm_compute. reflexivity. Qed.
@@ -941,7 +946,7 @@ Definition add_fn : instr :=
     [IUn UReturn (IBin Add (ILocal nacc (LOther TInt)) (ILocal ncur (LOther TInt)))] TInt.
 Definition ex_reduce : list instr := counter ++ [IReduce it_int (IVar (VInt 10)) add_fn].
 Example ex_reduce_typed : exists G' Ts,
-  @typed_list (policy6 pre_boot) W_boot [] K0 ex_reduce G' Ts /\ List.last Ts TVoid = TInt.
+  @typed_list policy6 W_boot [] K0 ex_reduce G' Ts /\ List.last Ts TVoid = TInt.
 Proof.
   eexists. eexists.
   split; [unfold ex_reduce, counter, counter_body, add_fn; cbn [app]; tylist|reflexivity].
@@ -974,12 +979,12 @@ Definition mixed : list instr :=
 Definition it_ints : instr := ILocal nints (LOther (TFun [] (TTup [TBool; TInt]))).
 
 (* mixed ? int $+   — 12 *)
-Definition ex_filter_sum : list instr := mixed ++ [IUn USum it_ints].
+Definition ex_filter_sum : list instr := Eval vm_compute in mixed ++ [sum_of it_ints (it_of TInt)].
 Example ex_filter_sum_typed : exists G' Ts,
-  @typed_list (policy6 pre_boot) W_boot [] K0 ex_filter_sum G' Ts /\ List.last Ts TVoid = TInt.
+  @typed_list policy6 W_boot [] K0 ex_filter_sum G' Ts /\ List.last Ts TVoid = TInt.
 Proof.
   eexists. eexists.
-  split; [unfold ex_filter_sum, mixed, mixed_body, yield_at; cbn [app]; tylist|reflexivity].
+  split; [unfold ex_filter_sum; tylist|reflexivity].
 Qed.
 Example ex_filter_sum_runs : sig (X6 ex_filter_sum VVoid) = SVal (VInt 12).
 Proof. vm_compute. reflexivity. Qed.
@@ -993,12 +998,12 @@ Proof.
 Qed.
 
 (* (mixed ? int $(1) (acc, cur) -> acc * cur ... ) with the product operator: mixed ? int $*  — 35 *)
-Definition ex_filter_product : list instr := mixed ++ [IUn UProduct it_ints].
+Definition ex_filter_product : list instr := Eval vm_compute in mixed ++ [prod_of it_ints (it_of TInt)].
 Example ex_filter_product_typed : exists G' Ts,
-  @typed_list (policy6 pre_boot) W_boot [] K0 ex_filter_product G' Ts /\ List.last Ts TVoid = TInt.
+  @typed_list policy6 W_boot [] K0 ex_filter_product G' Ts /\ List.last Ts TVoid = TInt.
 Proof.
   eexists. eexists.
-  split; [unfold ex_filter_product, mixed, mixed_body, yield_at; cbn [app]; tylist|reflexivity].
+  split; [unfold ex_filter_product; tylist|reflexivity].
 Qed.
 Example ex_filter_product_runs : sig (X6 ex_filter_product VVoid) = SVal (VInt 35).
 Proof. vm_compute. reflexivity. Qed.
@@ -1007,7 +1012,7 @@ Proof. vm_compute. reflexivity. Qed.
 Definition ex_collect_mixed : list instr :=
   mixed ++ [IUn UCollect (ILocal nmixed (LFunction [] t_mixed))].
 Example ex_collect_mixed_typed : exists G' Ts,
-  @typed_list (policy6 pre_boot) W_boot [] K0 ex_collect_mixed G' Ts /\
+  @typed_list policy6 W_boot [] K0 ex_collect_mixed G' Ts /\
   List.last Ts TVoid = TArr int_or_string.
 Proof.
   eexists. eexists.
@@ -1017,12 +1022,51 @@ Example ex_collect_mixed_runs :
   exists v, sig (X6 ex_collect_mixed VVoid) = SVal v /\ has_type v (TArr int_or_string) = true.
 Proof. eexists. split; vm_compute; reflexivity. Qed.
 
+(* `$+` at a UNION static type: the planted form is a `match` over the iterator types
+      cb := mut true;
+      fl := () -> (bool, float) { return (false, 0.0) };
+      u := if *cb { it } else { fl };          // () -> (bool, int) | () -> (bool, float)
+      u $+      // match u { iter: () -> (bool, int) => INT_SUM(iter), iter: () -> (bool, float) => FLOAT_SUM(iter) }
+   at static type int | float *)
+Definition ncb : name := [99; 98]. Definition nfl : name := [102; 108]. Definition nu : name := [117].
+Definition t_if_iter : ty := TMulti [it_of TInt; it_of TFloat].
+Definition ex_sum_union : list instr := Eval vm_compute in
+  counter ++
+  [ ISet ncb (IMut TBool (IVar (VBool true)));
+    IFnDecl nfl [] [IUn UReturn (IVar (VTup [VBool false; VFloat 0]))] (TTup [TBool; TFloat]);
+    ISet nu (IIfElse (IUn UIndirection (ILocal ncb (LOther (TMut TBool))))
+                     (IBlock [it_int])
+                     (IBlock [ILocal nfl (LFunction [] (TTup [TBool; TFloat]))]));
+    sum_of (ILocal nu (LOther t_if_iter)) t_if_iter ].
+Example ex_sum_union_planted :
+  sum_of (ILocal nu (LOther t_if_iter)) t_if_iter =
+  IMatch (ILocal nu (LOther t_if_iter))
+    [ArmType n_plant (it_of TInt)
+       (plant_call (VFun 10 [it_of TInt] TInt) (ILocal n_plant (LOther (it_of TInt))));
+     ArmType n_plant (it_of TFloat)
+       (plant_call (VFun 11 [it_of TFloat] TFloat) (ILocal n_plant (LOther (it_of TFloat))))].
+Proof. reflexivity. Qed.
+Example ex_sum_union_typed : exists G' Ts,
+  @typed_list policy6 W_boot [] K0 ex_sum_union G' Ts /\ List.last Ts TVoid = TMulti [TInt; TFloat].
+Proof. eexists. eexists. split; [unfold ex_sum_union; tylist|reflexivity]. Qed.
+Example ex_sum_union_runs : sig (X6 ex_sum_union VVoid) = SVal (VInt 6).
+Proof. vm_compute. reflexivity. Qed.
+Example ex_sum_union_sound : forall powf n,
+  match sig (run_code powf pre_boot n st_boot [[]] ex_sum_union VVoid) with
+  | SVal v => has_type v (TMulti [TInt; TFloat]) = true | SError e => doc_err e | SFuel => True
+  | _ => False
+  end.
+Proof.
+  intros powf n. destruct ex_sum_union_typed as [G' [Ts [Hl Hlast]]].
+  pose proof (run_boot_sound powf n ex_sum_union G' Ts Hl) as H. rewrite Hlast in H. exact H.
+Qed.
+
 (* partition of an iterator by a predicate:  it \ (x: int) -> bool { return x < 2 }   — ([1], [2, 3]) *)
 Definition lt2 : instr :=
   IAnonFn [(nx, TInt)] [IUn UReturn (IBin Lower (ILocal nx (LOther TInt)) (IVar (VInt 2)))] TBool.
 Definition ex_partition : list instr := counter ++ [IBin Partition it_int lt2].
 Example ex_partition_typed : exists G' Ts,
-  @typed_list (policy6 pre_boot) W_boot [] K0 ex_partition G' Ts /\
+  @typed_list policy6 W_boot [] K0 ex_partition G' Ts /\
   List.last Ts TVoid = TTup [TArr TInt; TArr TInt].
 Proof.
   eexists. eexists.
@@ -1036,7 +1080,7 @@ Proof. vm_compute. reflexivity. Qed.
 Definition ex_bitand : list instr :=
   counter ++ [IBin FunctionCall (IVar (r_and red_boot)) (ITuple [it_int])].
 Example ex_bitand_typed : exists G' Ts,
-  @typed_list (policy6 pre_boot) W_boot [] K0 ex_bitand G' Ts /\ List.last Ts TVoid = TInt.
+  @typed_list policy6 W_boot [] K0 ex_bitand G' Ts /\ List.last Ts TVoid = TInt.
 Proof.
   eexists. eexists.
   split; [unfold ex_bitand, counter, counter_body; cbn [app]; tylist|reflexivity].
@@ -1045,33 +1089,45 @@ Example ex_bitand_runs : sig (X6 ex_bitand VVoid) = SVal (VInt 0).
 Proof. vm_compute. reflexivity. Qed.
 
 (* ================================================================= *)
-(* stage 6: the side conditions are necessary                          *)
+(* stage 6: what is not covered, and why                               *)
 (* ================================================================= *)
-(* Compared with the tests of the checker (Check.v: `iter_element yt` exists and
-   `yt` matches ACC_SUM / ACC_PRODUCT / ITERATOR_TYPE) the rules ask for
-     - T_Sum / T_Product: [sum_ok] / [prod_ok] — static tests only; with the repaired
-       dispatch (the reducer is chosen among the kinds the STATIC operand type allows) no
-       condition on run-time tags is left.  They exclude the element type `!` (S13c below);
+(* Compared with the tests of the checker the gated rules ask only for
      - T_TypeFilter: the default value of the filter type is a good value (true for every
        default without function or cell components; the model's [of_type] returns the
        placeholder identities VFun 0 / VMut 0 there, the implementation a fresh function /
        cell: [type_filter_default_model_refuted]);
-     - closure literals under [policy6]: the body is typed without iterator operators
-       ([recreate_iterator_refuted], [recreate_loses_static_type_refuted]).
+     - closure literals under [policy6]: the body is typed without the gated rules
+       ([recreate_iterator_refuted]).
+   `$+` / `$*`: S13c, S13d and S27 are repaired (the reducer is planted from the static type):
+   [sum_never_fixed], [fall_off_end_rejected], [narrowing_repaired].
    `~`, `@` and the filter `? p` have no rule: the known findings S13a, S13b are reproduced
-   below on the booted store, with variants that no static side condition excludes
-   ([iter_subsumption_refuted], [map_runtime_retype_refuted]). *)
+   below on the booted store, with the variants S13e, S13f that no static side condition
+   excludes ([iter_subsumption_refuted], [map_runtime_retype_refuted]). *)
 Definition X6e := exec powf0 pre_boot 60 st_boot [[]].
 Definition empty_iter : instr := IUn UIter (IArray [] TNever).      (* []~ *)
+Definition run_src (src : list sline) : outcome signal :=
+  match parse_top powf0 red_boot 60 boot_scopes [mkLayer [] None false] src with
+  | Ok (is, _) => Ok (sig (run_code powf0 pre_boot 80 st_boot boot_scopes is VVoid))
+  | Err e => Err e
+  | Panic => Panic
+  | OutOfFuel => OutOfFuel
+  end.
 
-(* S13c: `[]~ $+` is 0 at static type `!`.  The checker's test passes; [sum_ok] does not *)
-Theorem sum_never_refuted :
-  rt (IUn USum empty_iter) = Ok TNever /\
-  sig (X6e (IUn USum empty_iter)) = SVal (VInt 0) /\
-  (iter_element (it_of TNever) = Some TNever /\ matches (it_of TNever) ACC_SUM = true) /\
-  sum_ok (it_of TNever) (ielem (it_of TNever)) = false /\
-  prod_ok (it_of TNever) (ielem (it_of TNever)) = false.
-Proof. repeat split; vm_compute; reflexivity. Qed.
+(* S13c (repaired): `[]~ $+` is planted as INT_SUM([]~): the int 0 at static type int *)
+Definition src13c : list sline := [LStm (SExpr (XPostfix USum (XPostfix UIter (XArray []))))].
+Example sum_never_fixed :
+  exists i, parse_top powf0 red_boot 60 boot_scopes [mkLayer [] None false] src13c
+              = Ok ([i], [mkLayer [] None false]) /\
+            rt i = Ok TInt /\ run_src src13c = Ok (SVal (VInt 0)).
+Proof. eexists. split; [vm_compute; reflexivity|]. split; vm_compute; reflexivity. Qed.
+
+(* S13d (repaired): `f := () -> int { x := []~ $+; };  f() + 1` is rejected (MissingReturn):
+   the statement is int-typed now *)
+Definition src13d : list sline :=
+  [ LFnDecl nf [] (Some TInt) [LSet nx (SExpr (XPostfix USum (XPostfix UIter (XArray []))))];
+    LStm (SExpr (XInfix Add (XCall (XIdent nf) []) (XConst (VInt 1)))) ].
+Example fall_off_end_rejected : run_src src13d = Err E_Reject.
+Proof. vm_compute. reflexivity. Qed.
 
 (* S13a: the end marker of `~` when the element type has no default: `([]~)().1 + 1` *)
 Definition p13a : instr :=
@@ -1089,14 +1145,6 @@ Definition p13b : instr :=
 Theorem map_end_marker_refuted : rt p13b = Ok TString /\ sig (X6e p13b) = SPanic.
 Proof. split; vm_compute; reflexivity. Qed.
 
-(* S13d: a `!`-typed statement hides the missing return:
-   `f := () -> int { x := []~ $+; };  f() + 1` *)
-Definition p13d : list instr :=
-  [ IFnDecl nf [] [ISet nx (IUn USum empty_iter)] TInt;
-    IBin Add (IBin FunctionCall (ILocal nf (LFunction [] TInt)) (IVar (VTup []))) (IVar (VInt 1)) ].
-Theorem fall_off_end_refuted : sig (X6 p13d VVoid) = SPanic.
-Proof. vm_compute. reflexivity. Qed.
-
 (* the model's default of a function type is the placeholder `VFun 0`: closure 0 of the booted
    store is std.len.  `((mixed ? (int) -> int)().1)(5)` *)
 Definition t_ii : ty := TFun [TInt] TInt.
@@ -1113,33 +1161,36 @@ Proof.
   intros [_ H]. vm_compute in H. discriminate H.
 Qed.
 
-(* ---- the constant-propagation pass does not preserve the iterator rules ---- *)
-(* (1) `x $+` with x : () -> (bool, int) in the creating scope bound to a function that never
-   returns (v : () -> !, a good value of that type): the pass replaces x by the constant; its
-   type has no element type, and no rule types `v $+` (its [rt] is `!`) *)
-Definition v_div : value := VFun 1 [] TNever.
-Definition W_div : sty := mkW [] [None; Some ([], TNever)].
-Definition i_rec : instr := IUn USum (ILocal nx (LOther (it_of TInt))).
+(* ---- the constant-propagation pass does not preserve the gated rules ---- *)
+(* `x $]` with x : () -> (bool, int) in the creating scope bound to a function that never
+   returns, of run-time type () -> (!, int) (a good value of the static type): the pass
+   replaces x by the constant; its type has no element type ([iter_element] wants the first
+   component to BE bool), and no rule types `v $]`.  In the same way a local re-recorded at a
+   union with such a member (`y := if c { x } else { z }`) loses its element type: [rt] of
+   `y $]` becomes `[!]` although it evaluates to an array of ints. *)
+Definition v_div : value := VFun 1 [] (TTup [TNever; TInt]).
+Definition W_div : sty := mkW [] [None; Some ([], TTup [TNever; TInt])].
+Definition i_rec : instr := IUn UCollect (ILocal nx (LOther (it_of TInt))).
 Theorem recreate_iterator_refuted :
-  (forall pre W0 K, prelude_ok pre W0 -> @typed (policy6 pre) W0 [(nx, it_of TInt)] K i_rec TInt) /\
+  (forall W0 K, @typed policy6 W0 [(nx, it_of TInt)] K i_rec (TArr TInt)) /\
   gv W_div v_div (it_of TInt) /\
   recreate powf0 10 [[(nx, v_div)]] [mkLayer [] None false] i_rec
-    = Ok (IUn USum (IVar v_div), [mkLayer [] None false]) /\
-  rt (IUn USum (IVar v_div)) = Ok TNever /\
-  (forall (P : Policy) W G K T, ~ @typed P W G K (IUn USum (IVar v_div)) T).
+    = Ok (IUn UCollect (IVar v_div), [mkLayer [] None false]) /\
+  rt (IUn UCollect (IVar v_div)) = Ok (TArr TNever) /\
+  (forall (P : Policy) W G K T, ~ @typed P W G K (IUn UCollect (IVar v_div)) T).
 Proof.
   split; [|split; [|split; [|split]]].
-  - intros pre W0 K HP. unfold i_rec. eapply typed_conv; [ty|reflexivity].
+  - intros W0 K. unfold i_rec. eapply typed_conv; [ty|reflexivity].
   - split; [reflexivity|]. split; [reflexivity|]. reflexivity.
   - vm_compute. reflexivity.
   - reflexivity.
   - intros P W G K T H. inversion H; subst.
     match goal with Hx : typed _ _ _ (IVar v_div) _ |- _ => inversion Hx; subst end.
-    match goal with Hs : sum_ok _ _ = true |- _ => vm_compute in Hs; discriminate Hs end.
+    match goal with Hs : matches _ _ = true |- _ => vm_compute in Hs; discriminate Hs end.
 Qed.
 
-(* (2) A NEW DEFECT of the implementation, found by (1) and confirmed on it after the repair of
-   S27: the pass can LOSE static type information, and `$+` then falls back to the run-time tag.
+(* S27 through narrowing (found by the attempt to prove the above for `$+`; REPAIRED by planting
+   the reducer from the static type at creation):
 
      diverge := () -> ! { return diverge() };
      empty := () -> (bool, float) { return (false, 0.0) };
@@ -1148,13 +1199,12 @@ Qed.
         return h();
      };
      r := g(diverge, empty, mut false);
-     r + 1.5         // "Tried to do 0 + 1.5 which is imposible"
+     r + 1.5
 
-   The checker sees y : () -> (bool, float).  When h is created, x and z are constants, the `if`
-   has the UNION type `() -> ! | () -> (bool, float)`, which has no element type (the first
-   member has none), so `y $]` is re-typed `[!]`, `(y $])~` `() -> (bool, !)`; that static type
-   allows none of the three reducers, the dispatch consults the run-time tag of the (empty)
-   iterator and takes INT_SUM: the int 0 at static type float. *)
+   The checker sees y : () -> (bool, float) and plants FLOAT_SUM.  When h is created the pass
+   re-types y at the UNION `() -> ! | () -> (bool, float)`, which has no element type, but the
+   planted call does not consult static types any more: the program runs to 1.5 (it used to
+   panic "Tried to do 0 + 1.5"). *)
 Definition nd_ : name := [100]. Definition ne_ : name := [101]. Definition ng_ : name := [103].
 Definition nh_ : name := [104]. Definition nr_ : name := [114].
 Definition t_itf : ty := TFun [] (TTup [TBool; TFloat]).
@@ -1172,30 +1222,16 @@ Definition src_narrow : list sline :=
         LStm (SRet (Some (SExpr (XCall (XIdent nh_) [])))) ];
     LSet nr_ (SExpr (XCall (XIdent ng_) [XIdent nd_; XIdent ne_; XMut None (XConst (VBool false))]));
     LStm (SExpr (XInfix Add (XIdent nr_) (XConst (VFloat F_1_5)))) ].
-Theorem recreate_loses_static_type_refuted :
+Example narrowing_repaired :
   concat (TFun [] TNever) t_itf = TMulti [TFun [] TNever; t_itf] /\
   iter_element (TMulti [TFun [] TNever; t_itf]) = None /\
-  exists is e,
-    parse_top powf0 red_boot 60 boot_scopes [mkLayer [] None false] src_narrow = Ok (is, e) /\
-    sig (run_code powf0 pre_boot 80 st_boot boot_scopes is VVoid) = SPanic.
-Proof.
-  split; [reflexivity|]. split; [reflexivity|].
-  destruct (parse_top powf0 red_boot 60 boot_scopes [mkLayer [] None false] src_narrow)
-    as [[is e]| | |] eqn:Hp; try (vm_compute in Hp; discriminate Hp).
-  exists is, e. split; [reflexivity|].
-  vm_compute in Hp. injection Hp as <- <-. vm_compute. reflexivity.
-Qed.
+  run_src src_narrow = Ok (SVal (VFloat F_1_5)).
+Proof. split; [reflexivity|]. split; [reflexivity|]. vm_compute. reflexivity. Qed.
 
 (* ---- `~` and `@`: no static side condition on the operand types suffices ---- *)
 (* The iterator `a~` is re-typed at the RUN-TIME element type of the array, `it @ f` at the
    run-time result type of f; both can be strictly below the static ones.  (Confirmed on the
-   implementation; variants of the known findings S13a / S13b.) *)
-Definition run_src (src : list sline) : option signal :=
-  match parse_top powf0 red_boot 60 boot_scopes [mkLayer [] None false] src with
-  | Ok (is, _) => Some (sig (run_code powf0 pre_boot 80 st_boot boot_scopes is VVoid))
-  | _ => None
-  end.
-
+   implementation; recorded as the known findings S13e / S13f, variants of S13a / S13b.) *)
 (* g := (a: [int]) -> int { return (a~)().1 + 1 };  g([])
    the static element type int has a default, the run-time element type `!` of `[]` has none:
    "Tried to do () + 1" *)
@@ -1205,7 +1241,7 @@ Definition src_iter_sub : list sline :=
       [LStm (SRet (Some (SExpr (XInfix Add
          (XTupleAccess (XCall (XPostfix UIter (XIdent na)) []) 1) (XConst (VInt 1))))))];
     LStm (SExpr (XCall (XIdent ng_) [XArray []])) ].
-Theorem iter_subsumption_refuted : run_src src_iter_sub = Some SPanic.
+Theorem iter_subsumption_refuted : run_src src_iter_sub = Ok SPanic.
 Proof. vm_compute. reflexivity. Qed.
 
 (* it := () -> (bool, int | string) { return (false, 0) };
@@ -1226,5 +1262,5 @@ Definition src_map_rt : list sline :=
              (SExpr (XInfix Add (XTupleAccess (XCall (XIdent ns_) []) 1) (XConst (VString [120]))));
            AOther (SExpr (XConst (VString [111])))])))];
     LStm (SExpr (XCall (XIdent nh_) [XIdent nf])) ].
-Theorem map_runtime_retype_refuted : run_src src_map_rt = Some SPanic.
+Theorem map_runtime_retype_refuted : run_src src_map_rt = Ok SPanic.
 Proof. vm_compute. reflexivity. Qed.
